@@ -332,6 +332,13 @@ func genbankFeatureParser(gb *GenBank, depth int) pars.Parser {
 		}
 		pars.Line(state, result)
 		state.Clear()
+		// A record without features is written with a blank line in place of
+		// the feature table.
+		if c, err := pars.Next(state); err == nil && (c == '\n' || c == '\r') {
+			pars.EOL(state, pars.Void)
+			gb.Table = nil
+			return nil
+		}
 		if err := fieldBodyParser(state, result); err != nil {
 			return err
 		}
